@@ -140,6 +140,9 @@ void apply_step_real_D(AnyView<E, P>& v, Step const& s) {
 			else out(csub.chunked(s.a));
 		}
 		break;
+	case S_HALVED:  // const& overload only
+		if constexpr(D + 1 <= MAXD) out(csub.halved());
+		break;
 	case S_FLATTED:
 		if constexpr(D >= 2) {
 			if(s.mode == 0) out(std::move(sub).flatted());
